@@ -42,6 +42,16 @@ def split_unit(ctx, src):
                       R(r'\bret\.(?:emplace|push)_back\(s\.substr\((\w+), ([^;]*?)\)\);', r'c8_push_substr(ret, s, \1, \2);'),
                       L('return ret;', 'return;')],
                may_throw=['c8_push_substr'], nloops=1, loops={1: SPLIT_LOOP})
+    # the std::wstring overload is a second copy of the same text: instantiated over the same string model (the algorithm only
+    # compares elements with the delimiter, so the element type wchar_t is represented by the model's element type)
+    u.function(src, CC, r'vector<wstring> split\(const wstring& s, wchar_t delim, size_t max_splits\)',
+               new_header='void split_w(vvec* ret, const vstr* s, char delim, size_t max_splits)', ret_zero='',
+               rules=[L('vector<wstring> ret;', ''), SIZES[0], R(r'\bret\.size\(\)', 'ret->size', '+'), NPOS,
+                      R(r'\bs\.find\(delim, (\w+)\)', r'c8_find_ch(s, delim, \1)'),
+                      R(r'\bret\.(?:emplace|push)_back\(s\.substr\((\w+)\)\);', r'c8_push_substr(ret, s, \1, C8_NPOS);'),
+                      R(r'\bret\.(?:emplace|push)_back\(s\.substr\((\w+), ([^;]*?)\)\);', r'c8_push_substr(ret, s, \1, \2);'),
+                      L('return ret;', 'return;')],
+               may_throw=['c8_push_substr'], nloops=1, loops={1: SPLIT_LOOP})
     return u
 
 
@@ -292,6 +302,8 @@ def plan(ctx):
     RP = lambda mode: Replay(driver='C08/strings.cc', mode=mode, sources=ALL_LIB, small_define='VERIF_SMALL')
     groups.append(Group(name='split', harness='harness/C08/split.c', entry='h_split', function='split(const string&, char, size_t)',
                         enforce='split', replace=['c8_find_ch'], loops=True, kind='loop-contract', replay=RP('split'), timeout=300, stage1=90, fallback_unwind=8))
+    groups.append(Group(name='split(wstring)', harness='harness/C08/split.c', entry='h_split_w', function='split(const wstring&, wchar_t, size_t)',
+                        enforce='split_w', replace=['c8_find_ch'], loops=True, kind='loop-contract', replay=RP('split_w'), timeout=300, stage1=90, fallback_unwind=8))
     groups.append(Group(name='split.count[bounded]', harness='harness/C08/split.c', entry='b_split_count', function='split: number of pieces',
                         defines=['C8_CONCRETE=1', 'BSPLIT_N=6'], kind='bounded', bound='strings of length <= 6 (all contents, delimiters, max_splits)',
                         cbmc_flags=['--unwind', '9', '--unwinding-assertions'], replay=RP('split'), min_post=2))
@@ -407,7 +419,8 @@ DROPS = ('returned std::string / vector<string> -> out-parameters (vout: size + 
          'an unconstrained closer after pop; s = s.substr(..) -> pointer shift of the view; exceptions -> verif_exc flag; ghost statements assign only g_* variables')
 NOT_DECIDED = ['string_vprintf: what text printf produces for a format (libc) -- the contract only says the result is *the* text vsnprintf/vasprintf produce, of any length (abstract text model); '
                'string_printf / wstring_printf / wstring_vprintf (variadic wrappers, wide characters) are not under contract',
-               'split(const wstring&, wchar_t, size_t): same text as the string overload, not instantiated',
+               'split(const wstring&, wchar_t, size_t) is under the same contract as the string overload, over the same string model (wchar_t elements are represented by the '
+               'element type of the model: the text only compares elements with the delimiter); join for wstring items is not instantiated',
                'the numeric equation count == min(#delimiters, max_splits) + 1 is decided through the tiling facts (every separator is a delimiter, no '
                'delimiter inside an uncapped piece, count - 1 <= max_splits); the final counting induction over pieces is a meta-argument, as is the '
                'induction principle that turns the base/step lemmas into join(split(s)) == s',
